@@ -564,15 +564,26 @@ func (c *tunnelChannel) close(err error) bool {
 	defer c.mu.Unlock()
 
 	if c.finished {
+		if c.err == nil && err != nil {
+			// The channel was closed locally after its context had already
+			// ended (see below); this is the receive loop reporting why.
+			c.err = err
+		}
 		return false
 	}
 
 	defer c.cancel()
 
 	c.finished = true
-	if err == nil {
+	if err == nil && c.ctx.Err() == nil {
 		err = io.EOF
 	}
+	// If this is a local Close (err == nil) but the channel's context has
+	// already ended, then the tunnel did not end because of this call: the
+	// underlying stream was cancelled or failed and the receive loop has not
+	// reported it yet. Leave the cause unset (Err() then reports the context
+	// error) so that the receive loop can still record it, instead of
+	// recording a clean close that hides the real cause.
 	c.err = err
 	for _, st := range c.streams {
 		st.cancel()
